@@ -25,6 +25,8 @@ def _eval_variant(args):
         return (var[0], kind, "not-applicable", "")
     try:
         p2 = Program(prog.root, ov)
+        from . import astq
+        astq.PROG = p2
         r2 = report.Run(pid, "quick", 0)
         mod.check(p2, r2)
     except AnalysisError as e:
